@@ -140,7 +140,7 @@ ComposeCases ==
 F(v, tag) == [v |-> v, tag |-> tag]
 Types   == { F("", "none"), F("git::", "git"), F("GIT::", "git"), F("https::", "https"), F("hg::", "hg"), F("http::", "http") }
 Schemes == { F("https", "https"), F("ssh", "ssh"), F("HTTPS", "https"), F("http", "http"), F("git", "git") }
-Users   == { F("", "none"), F("u@", "user"), F("u:p@", "user"), F(":p@", "user") }
+Users   == { F("", "none"), F("u@", "user"), F("u:p@", "user"), F(":p@", "user"), F("@", "user") }
 Hosts   == { F("example.com", "plain"), F("EXAMPLE.com", "case"), F("example.com:8080", "plain") }
 UPaths  == { F("/x.git", "git"), F("/o/x.git", "git"), F("/x.tgz", "arch"), F("/x.tar.gz", "arch"), F("/x.zip", "zip"), F("", "empty"),
              F("/a%2Fb.git", "esc-git"), F("/a b.tgz", "raw-arch"), F("/x.TGZ", "zip") }
@@ -264,6 +264,9 @@ CasesOf(pt) ==
                    \cup { JoinCase(reg, rs, real, ls) : reg \in RegPkgs, rs \in Stacks(2), real \in RemotePkgs, ls \in Stacks(2) }
                    \cup { ParseLocalCase(t, tr) : t \in RawRel, tr \in BOOLEAN }
   ELSE IF pt[1] = "fixed" THEN { FixedCase(x, "source") : x \in Fixed } \cup { FixedCase(x, "final") : x \in FixedFinal }
+     \* every kind of userinfo (name only, password only, present but empty) under every type and scheme, other fields plain
+     \cup { SyntaxCase(ty, sc, us, F("example.com", "plain"), pa, F("", "none"), F("", "none"), su) :
+               ty \in Types, sc \in Schemes, us \in Users, pa \in { F("/x.git", "git"), F("/x.tgz", "arch") }, su \in { F(<<>>, "none"), F(<<"sub">>, "ok") } }
   ELSE IF Part = "syntaxq" THEN
      { SyntaxCase(ty, sc, us, ho, pa, qu, fr, su) : ty \in { x \in Types : x.v = pt[1] }, sc \in { x \in Schemes : x.v = pt[2] },
         us \in { F("", "none"), F("u:p@", "user") }, ho \in { F("EXAMPLE.com", "case") },
